@@ -225,10 +225,10 @@ def records_gtf(chrom, recs):
 
 def real_record_db(chrom, recs):
     """a REAL gffutils database of the records, created with the options of src/gtf2db.py (complete genedb)"""
-    import gffutils
-    return gffutils.create_db(records_gtf(chrom, recs), ":memory:", from_string=True, force=True, keep_order=True,
-                              merge_strategy="error", sort_attribute_values=True, disable_infer_transcripts=True,
-                              disable_infer_genes=True)
+    import vlib
+    return vlib.gff_db_from_string(records_gtf(chrom, recs), force=True, keep_order=True,
+                                   merge_strategy="error", sort_attribute_values=True, disable_infer_transcripts=True,
+                                   disable_infer_genes=True)
 
 
 def gtf_to_db(gtf, db, complete=True):
